@@ -55,17 +55,24 @@ extern "C" {
 }
 namespace bxdecay0 { bool is_trace(const std::string &) { return false; } }
 
-static double integrand(double x, void *) { return 1.0 + x; }
-#ifndef NTHREADS
-#define NTHREADS 2
-#endif
+// every thread integrates its own function over its own interval with its own tolerance: a value cached
+// in shared state by one call and read back by another shows up as a wrong result
+static double integrand0(double x, void *) { return 1.0 + x; }
+static double integrand1(double x, void * p) { return *(double *)p * x + 3.0; }
+static double integrand2(double x, void *) { return 5.0 - x; }
 static double res[NTHREADS];
+static double want[NTHREADS];
 static int done[NTHREADS];
+static double slope1 = 2.0;
 static void worker(void * arg)
 {
   int id = (int)(long)arg;
   for (int c = 0; c < NCALLS; c++) {
-    try { res[id] = bxdecay0::decay0_gauss(integrand, 0., 1., 1e-4, 0); } catch (std::exception &) { res[id] = -1; }
+    try {
+      if (id == 0) { want[id] = 1.5; res[id] = bxdecay0::decay0_gauss(integrand0, 0., 1., 1e-4, 0); }
+      else if (id == 1) { want[id] = 2.0 * 1.5 * 1.0 + 3.0; res[id] = bxdecay0::decay0_gauss(integrand1, 1., 2., 1e-6, &slope1); }
+      else { want[id] = (5.0 - 2.5) * 1.0; res[id] = bxdecay0::decay0_gauss(integrand2, 2., 3., 1e-3, 0); }
+    } catch (std::exception &) { res[id] = -1; }
   }
   done[id] = 1;
 }
@@ -81,7 +88,7 @@ extern "C" void harness()
   irx_join_all();
   for (int t = 0; t < NTHREADS; t++) VASSERT(done[t], "C12: every thread finished (no deadlock)");
   // each instance computes what it computes alone: the model integrand gives (1 + 0.5) * 1 whatever the schedule
-  for (int t = 0; t < NTHREADS; t++) VASSERT(res[t] == 1.5 || res[t] == -1, "C12: the result of a thread does not depend on the schedule");
+  for (int t = 0; t < NTHREADS; t++) VASSERT(res[t] == want[t] || res[t] == -1, "C12: each thread gets the integral of its own function over its own interval, whatever the schedule");
   VASSERT(g_default_handler_calls == 0, "C12: no schedule lets a failing integration run under the aborting default handler (no schedule-dependent abort)");
   VASSERT(g_integrations_with_default_handler == 0, "C12: every integration of either thread runs with the error handler disabled");
   VASSERT(g_handler == 0, "C12: after both threads finished the process-wide handler is the initial one");
